@@ -208,13 +208,25 @@ Section Importer.
         else Ok (OStored (mkSt (s_rows st ++ [f]) (s_rels st) (s_dups st) a) id)
     end.
 
+  (* GFF3 importer, 'replace' of the feature stored under [id]: besides its level-1 parent links (do_merge) the level-2
+     rows derived from them go - those that end at it or run through it (parent among its level-1 parents and child
+     among its level-1 children, both read before anything is deleted); _update_relations re-derives what still holds.
+     (The GTF importer writes level-2 rows from each line's own gene id and keeps them.) *)
+  Definition is_replace (s : strategy) : bool := match s with SReplace => true | _ => false end.
+  Definition through_links (id : str) (rels : list rel) (x : rel) : bool :=
+    let ps := map rel_parent (filter (fun y => str_eqb (rel_child y) id && (rel_level y =? 1)) rels) in
+    let cs := map rel_child (filter (fun y => str_eqb (rel_parent y) id && (rel_level y =? 1)) rels) in
+    (rel_level x =? 2) && (str_eqb (rel_child x) id || (mem_str (rel_parent x) ps && mem_str (rel_child x) cs)).
+
   Definition step_gff (strat : strategy) (force : list field) (spec : idspec) (st : ist) (f0 : row) : result ist :=
     match store strat force spec st f0 with
     | Err e => Err e
     | Ok (OSkip st') => Ok st'
     | Ok (OStored st' id) =>
         let parents := match dget PARENT (r_attrs f0) with Some ps => ps | None => [] end in
-        Ok (mkSt (s_rows st') (add_rels (s_rels st') (map (fun p => mkRel p id 1) parents)) (s_dups st') (s_auto st'))
+        let kept := if is_replace strat && has_id id (s_rows st)
+                    then filter (fun x => negb (through_links id (s_rels st) x)) (s_rels st') else s_rels st' in
+        Ok (mkSt (s_rows st') (add_rels kept (map (fun p => mkRel p id 1) parents)) (s_dups st') (s_auto st'))
     end.
 
   Fixpoint run_steps (step : ist -> row -> result ist) (fs : list row) (st : ist) : result ist :=
